@@ -104,6 +104,14 @@ def run_filter(sv, k, i, n, res):
             res.sample({'range': r, 'tags_matched': [t for t in ts[:60] if RL.extended_filter(r, t)][:5]})
 
 
+_flt = lambda r, t: RL.extended_filter(r, t)
+COMPOUND_FORMS = (('p:lang({a}):lang({b})', lambda a, b, t: _flt(a, t) and _flt(b, t)),
+                  ('p:lang({a}):not(:lang({b}))', lambda a, b, t: _flt(a, t) and not _flt(b, t)),
+                  ('p:not(:lang({a}):lang({b}))', lambda a, b, t: not (_flt(a, t) and _flt(b, t))),
+                  ('p:lang({a}):lang({b}, {a})', lambda a, b, t: _flt(a, t)),
+                  ('p:is(:lang({a})):lang({b})', lambda a, b, t: _flt(a, t) and _flt(b, t)))
+
+
 def run_e2e(sv, k, i, n, res):
     """Through the parser and the matcher: one document with every tag, one select per range or range list."""
     import bs4
@@ -143,6 +151,28 @@ def run_e2e(sv, k, i, n, res):
                          f'{text!r}: soupsieve {[x["lang"] for x in got]} RFC 4647 {[x["lang"] for x in want]}')
             else:
                 res.outcome('e2e-agree')
+    # several :lang() in one compound are a conjunction (each must match on its own), also under :not()
+    conj = [(a, b) for a in rs[1:14] for b in rs[18:28]] + [('*', ''), ('', ''), ('en', 'en'), ('*-DE', 'de'), ('de', '*-DE')]
+    forms = COMPOUND_FORMS
+    for ci in range(i, len(conj), n):
+        a, b = conj[ci]
+        for form, law in forms:
+            text = form.format(a=S.css_string(a), b=S.css_string(b))
+            try:
+                got = sv.select(text, soup)
+            except Exception as e:
+                res.fail({'layer': 'e2e', 'text': text}, {'kind': 'raise', 'exc': type(e).__name__}, f'{text!r}: {e!r}')
+                continue
+            want = [e for e, t in zip(els, ts) if law(a, b, t)]
+            res.evaluations += 1
+            if want and len(want) < len(els):
+                res.nontrivial += 1
+            if [id(x) for x in got] != [id(x) for x in want]:
+                res.fail({'layer': 'e2e', 'text': text, 'ranges': [a, b], 'form': form},
+                         {'kind': 'e2e-compound', 'direction': 'extra' if len(got) > len(want) else 'missing', 'form': form.replace('{a}', 'A').replace('{b}', 'B')},
+                         f'{text!r}: soupsieve {[x["lang"] for x in got]} RFC 4647 per range, combined {[x["lang"] for x in want]}')
+            else:
+                res.outcome('e2e-compound-agree')
 
 
 # ---------------------------------------------------------------- determination
@@ -301,6 +331,10 @@ def replay(case):
             p['lang'] = t
             soup.div.append(p)
         got = [x['lang'] for x in sv.select(case['text'], soup)]
+        if case.get('form'):
+            law = dict(COMPOUND_FORMS)[case['form']]
+            want = [t for t in ts if law(case['ranges'][0], case['ranges'][1], t)]
+            return None if got == want else ({'kind': 'e2e-compound'}, f'{got} vs {want}')
         want = [t for t in ts if any(RL.extended_filter(r_, t) for r_ in case['ranges'])]
         return None if got == want else ({'kind': 'e2e'}, f'{got} vs {want}')
     d = _sel.tup(case['desc'])
